@@ -184,6 +184,9 @@ def m_lower(ex, st, args, kwargs, node):
     c = s.const()
     if c is not None:
         return [(st, VStr(c.lower()))]
+    # idempotence (assumed model of str.lower, checked natively for every code point in six contexts: lower(lower(x)) == lower(x)):
+    # a call site that lower-cases the name before it asks the router asks the same question
+    st.assume(LOWER(LOWER(s.t)) == LOWER(s.t))
     return [(st, VStr(LOWER(s.t)))]
 
 
@@ -243,6 +246,9 @@ def install(reg):
     reg.ext_models["mimetypes.guess_type"] = m_guess_type
     reg.ext_models["mimetypes.guess_extension"] = m_guess_extension
     reg.ext_models["importlib.import_module"] = m_import_module
+    # module globals that functions assign (`global X`) are cells with an inferred value set (pyvc/exprs.py::read_global_cell):
+    # a hand-written memo of the router functions is as transparent as `lru_cache(maxsize=1)`; what cannot be inferred is unknown
+    reg.global_cells = True
 
 
 from pyvc.symex import Executor  # noqa: E402
@@ -616,7 +622,7 @@ def _decls(e):
 TRUSTED = ["os.path.splitext axioms A1-A3 (+A5 instances in alias/extension lemmas)", "mimetypes.guess_type total, deterministic",
            "importlib.import_module succeeds for registry modules"]
 ASSUMED_MODELS = ["os.path.splitext (uninterpreted, axioms A1-A3)", "mimetypes.guess_type (uninterpreted: any MIME database)",
-                  "str.lower (uninterpreted)", "importlib.import_module + getattr (function identity = (module, name))"]
+                  "str.lower (uninterpreted, idempotent)", "importlib.import_module + getattr (function identity = (module, name))"]
 ASSUMPTIONS = ["PY-STR: str as sequence of code points (z3 String)", "PY-EXC", "logger calls dropped (PY-LOG)",
                "PY-MEMO: functools.lru_cache in front of a deterministic function is transparent (decorators are not executed); "
                "the MIME database does not change between a member's selection and its dispatch (cache soundness: C15)",
